@@ -1,4 +1,4 @@
-import CuriesVerif.Lemmas.Refine
+import CuriesVerif.Lemmas.Longest
 
 /-!
 # C01 — URI compression always picks the longest registered URI prefix
@@ -9,49 +9,6 @@ produced by the strict constructor (`wf_of_init`) — every delimiter, and every
 -/
 
 open Spec
-
-/-- `k` (owned by `r`) is a longest registered URI prefix of `u` -/
-def IsLongest (recs : List Record) (u k : Str) (r : Record) : Prop :=
-  r ∈ recs ∧ k ∈ r.allU ∧ k <+: u ∧ ∀ r' ∈ recs, ∀ k' ∈ r'.allU, k' <+: u → k'.length ≤ k.length
-
-theorem prefix_eq_of_length_eq {a b u : Str} (ha : a <+: u) (hb : b <+: u) (hl : a.length = b.length) :
-    a = b := by
-  rw [List.prefix_iff_eq_take] at ha hb
-  rw [ha, hb, hl]
-
-theorem isLongest_of_longest {recs : List Record} {u k : Str} {r : Record}
-    (h : longest recs u = some (k, r)) : IsLongest recs u k r := by
-  have ⟨hmem, hmax⟩ := longest_some h
-  have ⟨hr, hk, hp⟩ := (mem_matchesU _ _ _ _).mp hmem
-  exact ⟨hr, hk, hp, fun r' hr' k' hk' hp' => hmax (k', r') ((mem_matchesU _ _ _ _).mpr ⟨hr', hk', hp'⟩)⟩
-
-/-- under one-owner uniqueness the longest match — string *and* owner — is unique -/
-theorem isLongest_unique {recs : List Record} (hu : Unique recs) {u k k' : Str} {r r' : Record}
-    (h : IsLongest recs u k r) (h' : IsLongest recs u k' r') : k = k' ∧ r = r' := by
-  obtain ⟨hr, hk, hp, hmax⟩ := h
-  obtain ⟨hr', hk', hp', hmax'⟩ := h'
-  have hl : k.length = k'.length := Nat.le_antisymm (hmax' r hr k hk hp) (hmax r' hr' k' hk' hp')
-  have hkk : k = k' := prefix_eq_of_length_eq hp hp' hl
-  subst hkk
-  have h1 := ownerU_of_mem hu hr hk
-  have h2 := ownerU_of_mem hu hr' hk'
-  rw [h1] at h2
-  exact ⟨rfl, by simpa using h2⟩
-
-theorem longest_iff {recs : List Record} (hu : Unique recs) (u k : Str) (r : Record) :
-    longest recs u = some (k, r) ↔ IsLongest recs u k r := by
-  constructor
-  · exact isLongest_of_longest
-  · intro h
-    cases hl : longest recs u with
-    | none =>
-      have := (longest_none_iff _ _).mp hl
-      have hm : (k, r) ∈ matchesU recs u := (mem_matchesU _ _ _ _).mpr ⟨h.1, h.2.1, h.2.2.1⟩
-      rw [this] at hm; cases hm
-    | some kr =>
-      obtain ⟨k', r'⟩ := kr
-      have ⟨e1, e2⟩ := isLongest_unique hu (isLongest_of_longest hl) h
-      rw [e1, e2]
 
 /-- **C01 (failure side).** `parse_uri` finds nothing exactly when no registered URI prefix
 (canonical or synonym, of any record) is a prefix of `u`. -/
@@ -130,10 +87,6 @@ theorem C01_isUri {c : Conv} (h : WF c) (u : Str) :
     have hi := isLongest_of_longest hl
     simp only [Option.map_some, Option.isSome_some, true_iff]
     exact ⟨kr.2, hi.1, kr.1, hi.2.1, hi.2.2.1⟩
-
-theorem IsLongest.perm {l₁ l₂ : List Record} (p : l₁.Perm l₂) {u k : Str} {r : Record}
-    (h : IsLongest l₁ u k r) : IsLongest l₂ u k r :=
-  ⟨p.mem_iff.mp h.1, h.2.1, h.2.2.1, fun r' hr' => h.2.2.2 r' (p.mem_iff.mpr hr')⟩
 
 /-- **C01 (the answer is a function of the *set* of records).** -/
 theorem C01_unique_answer {l₁ l₂ : List Record} (hu : Unique l₁) (p : l₁.Perm l₂) (u : Str) :
